@@ -119,6 +119,8 @@ func VerifC11_StatusWrite() {
 		rt.Assert(r.Verb == "update" && r.Resource == res.Name && r.Name == "p" && r.NS == "ns", "write/unexpected-target-or-verb")
 		if hasSub {
 			rt.Assert(r.Sub == "status", "write/not-through-status-endpoint")
+		} else {
+			rt.Assert(r.Sub == "", "write/status-endpoint-used-for-a-resource-without-status-subresource")
 		}
 		// body = freshly read object with only status replaced
 		gen.Equal(r.Body.Object["status"], want, "write/body-status")
